@@ -436,6 +436,7 @@ func evalArray(node *jparse.ArrayNode, data reflect.Value, env *environment) (re
 }
 
 func evalObject(node *jparse.ObjectNode, data reflect.Value, env *environment) (reflect.Value, error) {
+	context := data
 	data = makeArray(data)
 
 	keys, err := groupItemsByKey(node, data, env)
@@ -448,8 +449,19 @@ func evalObject(node *jparse.ObjectNode, data reflect.Value, env *environment) (
 
 	for key, idx := range keys {
 
+		// The value expression is evaluated over the items that
+		// produced the key: the whole context, as it is, for a
+		// literal key, the item itself (not a one-item array) for
+		// a key produced by one item, an array of the items
+		// otherwise. In particular $ denotes the context item in
+		// {"k": $} and there is no value if there is no context.
 		items := data
-		if n := len(idx.items); n != 0 && n != nItems {
+		switch n := len(idx.items); {
+		case n == 0, context == undefined:
+			items = context
+		case n == 1:
+			items = data.Index(idx.items[0])
+		case n != nItems:
 			items = reflect.MakeSlice(typeInterfaceSlice, n, n)
 			for i, j := range idx.items {
 				items.Index(i).Set(data.Index(j))
